@@ -1,3 +1,4 @@
+#![cfg(all(feature = "builtins", feature = "macros", feature = "multi_template", feature = "adjacent_loop_items", feature = "fuel", feature = "loop_controls"))]
 // Shared reference models ("oracles") used by the Kani harnesses.
 // Included into minijinja's crate root under cfg(kani) as `crate::verif_common`.
 // Everything here is deliberately short and independent of minijinja's code.
